@@ -14,6 +14,8 @@ func dispatchMore(cmd string, args []string) bool {
 		keysRecord()
 	case "keys-collide":
 		keysCollide()
+	case "keys-inject":
+		keysInject()
 	default:
 		return false
 	}
